@@ -182,7 +182,7 @@ class SetEncoder(encoder.SequenceEncoder):
                     if namedType.isOptional and not component.isValue:
                             continue
 
-                    if namedType.isDefaulted and component == namedType.asn1Object:
+                    if namedType.isDefaulted and self._isDefaultValue(component, namedType):
                             continue
 
                     compsMap[id(component)] = namedType
@@ -205,7 +205,7 @@ class SetEncoder(encoder.SequenceEncoder):
                 if namedType.isOptional and namedType.name not in value:
                     continue
 
-                if namedType.isDefaulted and component == namedType.asn1Object:
+                if namedType.isDefaulted and self._isDefaultValue(component, namedType):
                     continue
 
                 compsMap[id(component)] = namedType
